@@ -70,6 +70,16 @@ CLAIMED['C02'] = dict(
          'reverse-flow branches of pumps need the solver and are not claimed.',
     ref='DESIGN.md section 4, C02')
 
+CLAIMED['C08'] = dict(
+    engine='amlsmt+symx+ctrlplane',
+    technique='leak row built by the real model builder and evaluated by the real ConditionalExpression code on z3 proxies (exact square-root encoding), SMT (z3 NRA) decides the three-piece law, continuity, monotonicity; leak activation window by symbolic execution of the real run_sim loop (Newton solve stubbed) on symbolic Int start/end times, SMT (LIA) decides the recorded timeline',
+    text='For a leaking junction and a leaking tank (DD and PDD): L = Cd A sqrt(2 g p) for p > 1e-4, L = 1e-11 p for p <= 0, bounded smoothing band between, no jump at either band edge, non-decreasing in p - '
+         'for ALL pressures (and all Cd in [0.01,1], A in [1e-6,1] in the symbolic-coefficient pass). With add_leak(start, end) for symbolic start/end: the leak is reported exactly on records with '
+         'start <= t < end, steps are inserted at start and end, reported leak_demand is the model leak rate while active and 0 otherwise, tank demand is net inflow minus leak, two simultaneous leaks, '
+         'and after remove_leak + reset_initial_values nothing leaks and no leak control remains.',
+    note='Trusted: z3; floats as reals; Newton solve (stub returns a constant leak rate when a leak row exists); template T7; durations <= 2 hydraulic steps.',
+    ref='DESIGN.md section 4, C08')
+
 NOT_APPLICABLE = {
     'C03': 'compares the numerical output of the closed EPANET shared library with a compiled Newton/SuperLU iteration; neither can be executed '
            'symbolically with the tools on this image and a contract standing in for EPANET would be the property itself (DESIGN.md section 5)',
